@@ -12,8 +12,16 @@ func symBreak(label string) byte {
 // c13Token returns a (possibly multi-line) construct of the given kind holding two symbolic line-break bytes, and
 // what it renders to (so that the faulty construct behind it is really reached).
 func c13Token(kind int, label string) string {
+	return c13TokenB(kind, label, true)
+}
+
+// c13TokenB: with secondSymbolic false the second break of the token is a plain line feed.
+func c13TokenB(kind int, label string, secondSymbolic bool) string {
 	b1 := string([]byte{symBreak(label)})
-	b2 := string([]byte{symBreak(label)})
+	b2 := "\n"
+	if secondSymbolic {
+		b2 = string([]byte{symBreak(label)})
+	}
 	switch kind {
 	case 0:
 		return "x" + b1 + "y" + b2
@@ -61,10 +69,19 @@ func countNewlines(s string) uint {
 // HarnessC13Line: T1 T2 [T3] G F - the reported line of the single-line faulty construct F is 1 + the number of
 // newlines before it, whatever multi-line tokens, CRLF line ends and blanks precede it.
 func HarnessC13Line() {
-	nt := vParam("T")
+	c13Line(vParam("T"), true)
+}
+
+// HarnessC13Line3: three preceding tokens; to keep the path count in reach only the last token's second break is
+// symbolic (the others end in a line feed), so CR LF still arises between the last token and the gap byte.
+func HarnessC13Line3() {
+	c13Line(3, false)
+}
+
+func c13Line(nt int, allSymbolic bool) {
 	src := ""
 	for i := 0; i < nt; i++ {
-		src += c13Token(vChoice("kind", c13Kinds), "t")
+		src += c13TokenB(vChoice("kind", c13Kinds), "t", allSymbolic || i == nt-1)
 	}
 	src += string([]byte{symBreak("gap")})
 	fault := c13Faults[vChoice("fault", len(c13Faults))]
@@ -115,7 +132,16 @@ func HarnessC13Files() {
 	var wantPath string
 	runtime := false
 	lineOnly := false
-	switch vChoice("fault", 8) {
+	box := false
+	switch vChoice("fault", 10) {
+	case 8, 9: // run-time fault in the page, inside a slot body that is passed to a component (default / named slot)
+		box = true
+		page = lead + "@component(\"~box\")@slot{{ undefinedName }}@end@end"
+		if vChoice("named-slot", 2) == 1 {
+			page = lead + "@component(\"~box\")@slot(\"n\"){{ 1 / 0 }}@end@end"
+		}
+		wantPath = cwd + "/templates/page.tw"
+		runtime = true
 	case 6: // run-time fault inside the component file: the line is that of the component file (path not asserted)
 		comp = lead + "{{ undefinedName }}"
 		runtime, lineOnly = true, true
@@ -144,6 +170,9 @@ func HarnessC13Files() {
 	}
 	vfsWriteFile("templates/layouts/main.tw", layout)
 	vfsWriteFile("templates/components/card.tw", comp)
+	if box {
+		vfsWriteFile("templates/components/box.tw", "\n\n<@slot|@slot(\"n\")>")
+	}
 	vfsWriteFile("templates/page.tw", page)
 	tpl, err := newTemplate("templates", ".tw")
 	vCover("loaded")
